@@ -288,7 +288,8 @@ pub fn leaf(c: &mut Chooser, o: &DatumOpts) -> D {
         let part = |c: &mut Chooser| match c.below(7) {
             0 => D::Int([0, 1, -1, 42][c.below(4)]),
             1 => D::Ratio([1, -1, 9][c.below(3)], [2, 5][c.below(2)]),
-            2 => D::Float([1.5, -2.25, 0.1, 1e21][c.below(4)]),
+            // incl. magnitudes that are written with an exponent, of either sign
+            2 => D::Float([1.5, -2.25, 0.1, 1e21, 1e-7, -2e-9, 2.5e-10, 3e-300, -1e22, 6.02e23, 5e-324, 1.7976931348623157e308][c.below(12)]),
             3 => D::Float(f64::INFINITY),
             4 => D::Float(f64::NEG_INFINITY),
             5 => D::Big("9223372036854775808".to_string()),
